@@ -286,4 +286,218 @@ theorem std_head_key (k rest h : List Char) (hk : k.length ≤ 8) (hlast : k.get
     List.take_of_length_le (by rw [List.length_append, length_blanks]; omega)] at this
   rw [← this, rstrip_append_blanks k _ hlast]
 
+/-- a quoted FITS string: opening quote, the string with every quote doubled, closing quote -/
+def quoted (w : Str) : List Char := '\'' :: (dbl w ++ ['\''])
+
+theorem quoted_last (l : List Char) (w : Str) : (l ++ quoted w).getLast? ≠ some ' ' := by
+  have : l ++ quoted w = (l ++ '\'' :: dbl w) ++ ['\''] := by simp [quoted]
+  rw [this, List.getLast?_concat]; decide
+
+theorem rstrip_card (h : List Char) (w : Str) (m : Nat) : rstrip (h ++ quoted w ++ blanks m) = h ++ quoted w :=
+  rstrip_append_blanks _ m (quoted_last h w)
+
+theorem std_take8 (k rest : List Char) (hk : k.length ≤ 8) :
+    (k ++ blanks (8 - k.length) ++ rest).take 8 = k ++ blanks (8 - k.length) := by
+  rw [List.take_append_of_le_length (by rw [List.length_append, length_blanks]; omega),
+    List.take_of_length_le (by rw [List.length_append, length_blanks]; omega)]
+
+theorem blanks_eq_stop (j : Nat) (r : List Char) :
+    ∃ b r', blanks j ++ '=' :: r = b :: r' ∧ (b != ' ' && b != '=') = false := by
+  cases j with
+  | zero => exact ⟨'=', r, rfl, by decide⟩
+  | succ j => exact ⟨' ', blanks j ++ '=' :: r, rfl, by decide⟩
+
+theorem read_std (k w : Str) (hk : k.length ≤ 8) (hne : k ≠ []) (ha : Alnum k) (hres : reserved k = false)
+    (hE : k ≠ endKey) (hH : k ≠ historyKey) (hC : k ≠ continueKey) (hw : (dbl w).length ≤ 68) :
+    ffgknm (k ++ blanks (8 - k.length) ++ '=' :: ' ' :: quoted w) = k ∧
+    stripValue (ffpsvc (k ++ blanks (8 - k.length) ++ '=' :: ' ' :: quoted w)) = w ∧
+    isEndCard (k ++ blanks (8 - k.length) ++ '=' :: ' ' :: quoted w) = false := by
+  have hlast := alnum_last k ha
+  have hk8 : (k ++ blanks (8 - k.length)).length = 8 := by rw [List.length_append, length_blanks]; omega
+  obtain ⟨c, hc⟩ : ∃ c, c = k ++ blanks (8 - k.length) ++ '=' :: ' ' :: quoted w := ⟨_, rfl⟩
+  have hhier : hierPrefix.isPrefixOf c = false := by
+    cases hb : hierPrefix.isPrefixOf c with
+    | false => rfl
+    | true =>
+      exfalso
+      have := prefix_take hb
+      rw [hc, show hierPrefix.length = 8 + 1 by decide, List.take_append, hk8, List.take_of_length_le (by omega)] at this
+      simp only [Nat.add_sub_cancel_left, List.take_succ_cons, List.take_zero] at this
+      have h2 := congrArg List.getLast? this
+      rw [List.getLast?_concat] at h2
+      revert h2; decide
+  have hcomm : commentaryHeads.any (·.isPrefixOf c) = false := by
+    rw [List.any_eq_false]
+    intro h hm hp
+    obtain ⟨hl, hr⟩ := commentaryHeads_facts h hm
+    rw [hc] at hp
+    have hkk := std_head_key k _ h hk hlast hl hp
+    rcases hr with hr | hr | hr | hr | hr
+    · rw [hr] at hkk; rw [hkk] at hres; revert hres; decide
+    · exact hH (hkk.trans hr)
+    · exact hE (hkk.trans hr)
+    · exact hC (hkk.trans hr)
+    · exact hne (hkk.trans hr)
+  refine ⟨?_, ?_, ?_⟩
+  · rw [← hc]
+    unfold ffgknm
+    simp only [hhier, Bool.false_eq_true, if_false]
+    obtain ⟨b, r', hbr, hb⟩ := blanks_eq_stop (8 - k.length) (' ' :: quoted w)
+    rw [hc, List.append_assoc, hbr, takeWhile_append_stop _ k b r' _ hb, List.take_of_length_le (by simp [C16.flenKeyword]; omega)]
+    intro x hx
+    have := alnum_facts x (ha x hx)
+    simp [this.2.1, this.2.2.1]
+  · rw [← hc, ffpsvc_std c hhier hcomm (by rw [hc, List.length_append, hk8]; simp only [List.length_cons]; omega)]
+    · have : c.drop 10 = quoted w := by
+        rw [hc, List.drop_append, hk8, List.drop_of_length_le (by omega)]; rfl
+      rw [this]
+      exact valTail_quoted 0 w hw
+    · rw [hc, List.drop_append, hk8, List.drop_of_length_le (by omega)]; rfl
+  · unfold isEndCard
+    rw [std_take8 k _ hk]
+    cases hb : (k ++ blanks (8 - k.length) == endHead) with
+    | false => rfl
+    | true =>
+      exfalso
+      have := eq_of_beq hb
+      have h2 := congrArg rstrip this
+      rw [rstrip_append_blanks k _ hlast] at h2
+      exact hE (h2.trans (by decide))
+
+theorem ne_eq_blanks (j : Nat) : ∀ x ∈ blanks j, (x != '=') = true := by
+  intro x hx
+  have : x = ' ' := by simpa [blanks] using (List.eq_of_mem_replicate hx)
+  subst this; decide
+
+theorem read_hier (k w : Str) (j : Nat) (hne : k ≠ []) (hhead : k.head? ≠ some ' ') (hlast : k.getLast? ≠ some ' ')
+    (heq : '=' ∉ k) (hw : (dbl w).length ≤ 68) :
+    ffgknm (hierPrefix ++ (k ++ blanks j) ++ '=' :: ' ' :: quoted w) = k ∧
+    stripValue (ffpsvc (hierPrefix ++ (k ++ blanks j) ++ '=' :: ' ' :: quoted w)) = w ∧
+    isEndCard (hierPrefix ++ (k ++ blanks j) ++ '=' :: ' ' :: quoted w) = false := by
+  obtain ⟨c, hc⟩ : ∃ c, c = hierPrefix ++ (k ++ blanks j) ++ '=' :: ' ' :: quoted w := ⟨_, rfl⟩
+  have hpre : hierPrefix.isPrefixOf c = true := by
+    rw [List.isPrefixOf_iff_prefix, hc, List.append_assoc]; exact List.prefix_append _ _
+  have hcont : c.contains '=' = true := by
+    rw [hc]; simp
+  have hkne : ∀ x ∈ k, (x != '=') = true := by
+    intro x hx; simp only [bne_iff_ne, ne_eq]; rintro rfl; exact heq hx
+  have hall : ∀ x ∈ hierPrefix ++ (k ++ blanks j), (x != '=') = true := by
+    intro x hx
+    rcases List.mem_append.mp hx with h | h
+    · exact (show ∀ y ∈ hierPrefix, (y != '=') = true by decide) x h
+    · rcases List.mem_append.mp h with h | h
+      · exact hkne x h
+      · exact ne_eq_blanks j x h
+  rw [← hc]
+  refine ⟨?_, ?_, ?_⟩
+  · unfold ffgknm
+    simp only [hpre, hcont, if_true]
+    have hd : c.drop 9 = (k ++ blanks j) ++ '=' :: ' ' :: quoted w := by
+      rw [hc, List.append_assoc, List.drop_left' (by decide)]
+    rw [hd, takeWhile_append_stop _ (k ++ blanks j) '=' _ (fun x hx => hall x (List.mem_append_right _ hx)) (by decide)]
+    have hh : (k ++ blanks j).head? ≠ some ' ' := by
+      cases k with
+      | nil => exact absurd rfl hne
+      | cons a r => simpa using hhead
+    rw [lstrip_of_head _ hh, rstrip_append_blanks k j hlast]
+  · rw [ffpsvc_hier c hpre hcont]
+    have ht : c.takeWhile (· != '=') = hierPrefix ++ (k ++ blanks j) := by
+      rw [hc]; exact takeWhile_append_stop _ _ '=' _ hall (by decide)
+    rw [ht]
+    have hd : c.drop ((hierPrefix ++ (k ++ blanks j)).length + 1) = blanks 1 ++ quoted w := by
+      rw [hc, show hierPrefix ++ (k ++ blanks j) ++ '=' :: ' ' :: quoted w
+        = (hierPrefix ++ (k ++ blanks j) ++ ['=']) ++ (blanks 1 ++ quoted w) by simp [blanks]]
+      rw [List.drop_left' (by simp; omega)]
+    rw [hd]
+    exact valTail_quoted 1 w hw
+  · rw [hc]; simp [isEndCard, hierPrefix, endHead]
+
+/-! ### what `write_key` accepts, in plain terms -/
+
+theorem longKeyScan_none_iff (k : Str) : longKeyScan k = none ↔ '=' ∉ k ∧ ∀ c ∈ k, c.isLower = false := by
+  induction k with
+  | nil => simp [longKeyScan]
+  | cons c r ih =>
+    unfold longKeyScan
+    by_cases h1 : c = '='
+    · subst h1; simp
+    · have h1' : (c == '=') = false := by simpa using h1
+      have h1'' : ¬ '=' = c := fun x => h1 x.symm
+      by_cases h2 : c.isLower = true
+      · simp [h1', h2]
+      · have h2' : c.isLower = false := by simpa using h2
+        simp only [h1', Bool.false_eq_true, if_false, h2', ih, List.mem_cons, not_or, h1'', not_false_eq_true, true_and,
+          forall_eq_or_imp]
+
+theorem badShortChar_false_iff (c : Char) : badShortChar c = false ↔ (c.isUpper || c.isDigit) = true := by
+  unfold badShortChar
+  constructor
+  · intro h
+    simp only [Bool.or_eq_false_iff, Bool.not_eq_false'] at h
+    exact h.1.1
+  · intro h
+    have hd : c ≠ '-' := by rintro rfl; revert h; decide
+    have hu : c ≠ '_' := by rintro rfl; revert h; decide
+    simp [h, hd, hu]
+
+theorem any_badShortChar_false_iff (k : Str) : k.any badShortChar = false ↔ Alnum k := by
+  rw [List.any_eq_false]
+  unfold Alnum
+  constructor
+  · intro h c hc; exact (badShortChar_false_iff c).mp (by simpa using h c hc)
+  · intro h c hc; simpa using (badShortChar_false_iff c).mpr (h c hc)
+
+/-- **what `write_key` accepts** (repaired code, constants of the source): the key is not reserved; a key of at most
+    8 characters consists of upper-case letters and digits and the value, every quote counted twice, has at most 68
+    characters; a longer key has no `=`, no lower-case letter, at most 66 characters, and key and value (quotes
+    counted twice) together have at most 67 characters. -/
+theorem validate_none_iff (key val : Str) :
+    validate key val = none ↔
+      reserved key = false ∧
+      (key.length ≤ 8 → Alnum key ∧ val.length + countQuotes val ≤ 68) ∧
+      (9 ≤ key.length → ('=' ∉ key ∧ ∀ c ∈ key, c.isLower = false) ∧ key.length ≤ 66 ∧
+        key.length + (val.length + countQuotes val) ≤ 67) := by
+  unfold validate
+  simp only [C16.shortKeylenMax, C16.longKeyGuard, C16.shortMaxData, longMaxData, C16.cardLen, C16.hierOverhead, sizeMod]
+  by_cases hr : reserved key = true
+  · simp [hr]
+  · have hr' : reserved key = false := by simpa using hr
+    simp only [hr', Bool.false_eq_true, if_false, true_and]
+    by_cases hlen : key.length ≤ 8
+    · have h9 : key.length + 1 ≤ 9 := by omega
+      have hn9 : ¬ 9 ≤ key.length := by omega
+      simp only [h9, if_true, hlen, hn9, false_implies, and_true, true_implies]
+      rw [← any_badShortChar_false_iff]
+      by_cases hb : key.any badShortChar = true
+      · simp [hb]
+      · have hb' : key.any badShortChar = false := by simpa using hb
+        simp only [hb', Bool.false_eq_true, if_false, true_and]
+        by_cases hv : val.length + countQuotes val > 68
+        · simp only [hv, if_true]; constructor
+          · intro h; cases h
+          · intro h; omega
+        · simp only [hv, if_false, true_iff]; omega
+    · have h9 : ¬ key.length + 1 ≤ 9 := by omega
+      have hn9 : 9 ≤ key.length := by omega
+      simp only [h9, if_false, hlen, hn9, false_implies, true_and, true_implies]
+      rw [← longKeyScan_none_iff]
+      cases hs : longKeyScan key with
+      | some e => simp
+      | none =>
+        simp only [true_and]
+        by_cases hg : 80 ≤ 13 + key.length
+        · have hg' : 13 + (key.length + 1) - 1 ≥ 80 := by omega
+          simp only [hg', if_true]; constructor
+          · intro h; cases h
+          · intro h; omega
+        · have hg' : ¬ 13 + (key.length + 1) - 1 ≥ 80 := by omega
+          simp only [hg', if_false]
+          have e : (80 + 2 ^ 64 - (13 + (key.length + 1) - 1) % 2 ^ 64) % 2 ^ 64 = 67 - key.length := by omega
+          rw [e]
+          by_cases hv : val.length + countQuotes val > 67 - key.length
+          · simp only [hv, if_true]; constructor
+            · intro h; cases h
+            · intro h; omega
+          · simp only [hv, if_false, true_iff]; omega
+
 end PsV.Aux
